@@ -299,7 +299,7 @@ class EvalMixin(InterpBase):
 
     def comprehension(self, node, fr, elt):
         if len(node.generators) != 1:
-            raise Unsupported("nested comprehension")
+            return self.multi_comprehension(node, fr, elt)
         g = node.generators[0]
         src = self.ev(g.iter, fr)
         if isinstance(src, tuple):
@@ -387,6 +387,36 @@ class EvalMixin(InterpBase):
         self.run.assume(z3.Implies(allpass, same))
         return R
 
+    def multi_comprehension(self, node, fr, elt):
+        """Several `for` clauses: supported when every iterated sequence has a concrete length."""
+        out = []
+        sub = Frame(fr.module, fr.cls, fr.func, fr.spec, parent=fr)
+        sub.olds, sub.defs = fr.olds, fr.defs
+
+        def rec(k):
+            if k == len(node.generators):
+                out.append(self.ev(elt, sub))
+                return
+            g = node.generators[k]
+            src = self.as_list(self.ev(g.iter, sub), sub)
+            n = list_len(src)
+            if not isinstance(n, int):
+                raise Unsupported("multi-clause comprehension over a sequence of symbolic length")
+            for i in range(n):
+                self.bind_target(g.target, list_get(src, i), sub)
+                keep = True
+                for cond in g.ifs:
+                    c = truth(self.ev(cond, sub))
+                    keep = keep and (c if isinstance(c, bool) else (self.run.branch(c) if not fr.spec else None))
+                    if keep is None:
+                        raise Unsupported("symbolic filter in spec comprehension")
+                    if not keep:
+                        break
+                if keep:
+                    rec(k + 1)
+        rec(0)
+        return ListV(out)
+
     def bind_target(self, target, value, fr):
         if isinstance(target, ast.Name):
             fr.locals[target.id] = value
@@ -440,6 +470,11 @@ class EvalMixin(InterpBase):
                 raise EngineError("old() evaluated outside a postcondition")
             if nm in ("forall", "exists") and fr.spec:
                 return self.quantifier(node, fr, nm)
+            if nm == "implies" and fr.spec and len(node.args) == 2:
+                a0 = truth(self.ev(node.args[0], fr))
+                if a0 is False:
+                    return True          # lazy: the consequent may mention names that do not exist on this path
+                return zimplies(a0, truth(self.ev(node.args[1], fr)))
             if nm == "cast":
                 return self.ev(node.args[1], fr)
             if nm == "super":
